@@ -27,8 +27,7 @@ Carve-outs (beyond DESIGN §7):
   scopes whose ancestors are defn/fn (the dictionary is read through Python
   variables, so class bodies/comprehensions/later rebinding would test Python's
   scoping, not the macro namespaces).
-* `(require pkg [submodule ...])` inside a function is not generated (known
-  unrepaired finding `local-require-submodule`, attributed to C15).
+* (`(require pkg [submodule ...])` inside a function is generated since hy commit b67c060 repaired it.)
 * the number of warnings is compared per shadowing name (multiset), not their order.
 """
 import importlib
@@ -153,9 +152,11 @@ class Resolver:
         if shown is not None and mangle(shown) in self.core and self.warn_on():
             self.warns.append(mangle(shown))
 
-    def lookup(self, key, extra=None, use_locals=True):
+    def lookup(self, key, extra=None, use_locals=True, inner=None):
         acc = set()
         spaces = [extra] if extra is not None else []
+        if inner is not None:
+            spaces.append(inner)        # a local scope opened by the code that hy.eval evaluates
         if use_locals:
             spaces += [s["m"] for s in reversed(self.stack[1:])]
         for d in spaces + [self.module]:
@@ -181,13 +182,23 @@ class Resolver:
             elif k in ("call", "ind"):
                 self.sites[it[1]] = self.lookup(mangle(it[2]))
             elif k == "hyeval":
-                _, site, name, variant, extra = it
-                ex = {mangle(n): ({t}, False) for n, t in extra.items()} if variant == "dict" else None
-                self.sites[site] = self.lookup(mangle(name), ex, use_locals=(variant == "local"))
+                _, site, name, variant, extra = it[:5]
+                ex = ({mangle(n): ({t}, False) for n, t in extra.items()}
+                      if variant in ("dict", "nested") else None)
+                inner = None
+                if variant == "nested":
+                    # the evaluated code opens its own scope with a local macro L and calls `name` there;
+                    # hy.eval compiles it with a fresh compiler (pragma default: warn)
+                    nl = it[5]
+                    inner = {mangle(nl["L"]): ({nl["ltag"]}, False)}
+                    self.spaces_per_key.setdefault(mangle(nl["L"]), set()).add("eval-local")
+                    if mangle(nl["L"]) in self.core:
+                        self.warns.append(mangle(nl["L"]))
+                self.sites[site] = self.lookup(mangle(name), ex, use_locals=(variant == "local"), inner=inner)
                 if ex:
                     for key in ex:
                         self.spaces_per_key.setdefault(key, set()).add("extra")
-                if not (ex and mangle(name) in ex):
+                if not (ex and mangle(name) in ex) and not (inner and mangle(name) in inner):
                     self.eval_sites.append((self.n, site, mangle(name)))
             elif k == "snap":
                 self.snaps[it[1]] = {key: (sorted(v[0]), v[1]) for key, v in self.module.items()}
@@ -238,6 +249,8 @@ class Gen:
             export = None
             if ev != "none":
                 export = [ev, [n for n in picks if rng.random() < 0.6] or [picks[0]]]
+                if rng.random() < 0.3:
+                    export = [ev, []]       # the module exports no macros at all
             self.fixtures[mod] = {"mod": mod, "macros": macros, "export": export}
 
     def gen_require(self, depth):
@@ -247,7 +260,7 @@ class Gen:
             mod = rng.choice(FIX_MODS)
             fx = self.fixtures[mod]
             shapes = ["bare", "as", "names", "names", "star"]
-            if mod == "hvpk.sub" and depth == 0:
+            if mod == "hvpk.sub":
                 shapes += ["sub", "sub"]
             shape = rng.choice(shapes)
             e = {"mod": mod, "shape": shape, "prefix": None, "names": None, "kw": rng.random() < 0.2}
@@ -292,8 +305,25 @@ class Gen:
     def hyeval_item(self, variant=None):
         rng = self.rng
         name = self.pick_name()
-        variant = variant or rng.choice(["dict", "dict", "none"])
+        variant = variant or rng.choice(["dict", "dict", "none", "nested", "nested"])
         extra = {}
+        if variant == "nested":
+            # hy.eval of code that itself defines/requires a local macro L in a nested scope and calls
+            # it there, with (usually) the same name in the :macros dict: the dict comes first
+            L = rng.choice(self.names)
+            for n in rng.sample(self.names, rng.randint(1, 2)):
+                extra[n] = self.newtag()
+            if rng.random() < 0.75:
+                extra.setdefault(L, self.newtag())
+            nl = {"L": L, "kind": rng.choice(["fn", "defn", "defclass", "lfor"]), "req": None}
+            if rng.random() < 0.3:
+                mod = rng.choice(FIX_MODS)
+                src, tag = rng.choice(self.fixtures[mod]["macros"])
+                nl["req"], nl["ltag"] = [mod, src], tag
+            else:
+                nl["ltag"] = self.newtag()
+            name = L if rng.random() < 0.8 else name
+            return ["hyeval", self.newsite(), name, variant, extra, nl]
         if variant == "dict":
             for n in rng.sample(self.names, rng.randint(1, 2)):
                 extra[n] = self.newtag()
@@ -423,7 +453,20 @@ def render_item(it, ind):
     if k == "snap":
         return [f'{pad}(eval-when-compile (HVSNAP "{it[1]}" _hy_macros))']
     if k == "hyeval":
-        _, site, name, variant, extra = it
+        _, site, name, variant, extra = it[:5]
+        if variant == "nested":
+            nl = it[5]
+            d = " ".join(f'"{mangle(n)}" (fn [#* args] "{t}")' for n, t in extra.items())
+            bind = (f"(require {nl['req'][0]} [{nl['req'][1]} :as {nl['L']}])" if nl["req"]
+                    else f'(defmacro {nl["L"]} [#* args] "{nl["ltag"]}")')
+            call = f"({name} 1 2)"
+            code = {
+                "fn": f"((fn [] {bind} {call}))",
+                "defn": f"(do (defn hv-inner{site} [] {bind} {call}) (hv-inner{site}))",
+                "defclass": f"(do (defclass HvInner{site} [] {bind} (setv v {call})) (. HvInner{site} v))",
+                "lfor": f"(get (lfor _ [0] :do {bind} {call}) 0)",
+            }[nl["kind"]]
+            return [f'{pad}(HVREC "{site}" (hy.eval \'{code} :macros {{{d}}}))']
         if variant == "dict":
             d = " ".join(f'"{mangle(n)}" (fn [#* args] "{t}")' for n, t in extra.items())
             m = f" :macros {{{d}}}"
@@ -687,6 +730,16 @@ def judge(case):
             kinds.update("require:" + e["shape"] for e in it[1])
         if it[0] == "hyeval":
             kinds.add("hyeval:" + it[3])
+            if it[3] == "nested":
+                nl = it[5]
+                kinds.add("hyeval:nested:" + nl["kind"] + (":require" if nl["req"] else ":defmacro")
+                          + (":same-name-in-dict" if nl["L"] in it[4] and mangle(it[2]) == mangle(nl["L"]) else ""))
+    for mod, fx in case["fixtures"].items():
+        if fx["export"] and not fx["export"][1]:
+            kinds.add("fixture:empty-export")
+            for it in iter_items(case["hist"]):
+                if it[0] == "require":
+                    kinds.update("require-from-empty-export:" + e["shape"] for e in it[1] if e["mod"] == mod)
     classes = sorted(kinds) + ["mode:" + case["mode"], "events:%d" % (case["events"] // 5 * 5)]
     res = {"ok": True, "nontrivial": r.nontrivial(), "classes": classes, "events": 0,
            "sample": {"main": case["main"], "fixtures": case["fixture_text"]}}
